@@ -4,8 +4,8 @@ import SpVerif.Lemmas.Triangle
 
 `fan_decomposition` (no hypothesis on the ring or the point): the winding number of the ring `v0, v1, …, vk, v0` is the sum of the
 winding numbers of the triangles `v0, vi, vi+1, v0` - the contributions of the diagonals cancel by `edgeContrib_swap`, whatever the
-half-open edge rule does with a point on a diagonal.  With the triangle theorems this gives `signed_cover`: when no fan triangle is
-degenerate and the point lies on the boundary of none, the winding number is (# counter-clockwise fan triangles strictly containing the
+half-open edge rule does with a point on a diagonal.  With the triangle theorems (a degenerate triangle contributes 0 about every point) this gives `signed_cover`: when the point lies on
+the boundary of no non-degenerate fan triangle, the winding number is (# counter-clockwise fan triangles strictly containing the
 point) − (# clockwise ones): the classical signed covering multiplicity, with no appeal to the Jordan curve theorem.
 -/
 namespace SpVerif.Geom
@@ -53,8 +53,9 @@ def triCover (p a b c : Pt) : Int :=
   if 0 < orientI a b p ∧ 0 < orientI b c p ∧ 0 < orientI c a p then 1
   else if orientI a b p < 0 ∧ orientI b c p < 0 ∧ orientI c a p < 0 then -1 else 0
 
-/-- `p` is strictly inside or strictly outside the non-degenerate triangle `a, b, c` (not on its boundary) -/
+/-- the triangle `a, b, c` is degenerate, or `p` is strictly inside or strictly outside it (not on its boundary) -/
 def OffBoundary (p a b c : Pt) : Prop :=
+  orientI a b c = 0 ∨
   (0 < orientI a b c ∧ ((0 < orientI a b p ∧ 0 < orientI b c p ∧ 0 < orientI c a p) ∨
                          (orientI a b p < 0 ∨ orientI b c p < 0 ∨ orientI c a p < 0))) ∨
   (orientI a b c < 0 ∧ ((orientI a b p < 0 ∧ orientI b c p < 0 ∧ orientI c a p < 0) ∨
@@ -63,7 +64,11 @@ def OffBoundary (p a b c : Pt) : Prop :=
 theorem triangle_cover (p a b c : Pt) (h : OffBoundary p a b c) : windSum p [a, b, c, a] = triCover p a b c := by
   have hs := orient_sum a b c p
   unfold triCover
-  rcases h with ⟨hA, hin | hout⟩ | ⟨hA, hin | hout⟩
+  rcases h with hA | ⟨hA, hin | hout⟩ | ⟨hA, hin | hout⟩
+  · rw [triangle_degenerate a b c p hA]
+    have n1 : ¬ (0 < orientI a b p ∧ 0 < orientI b c p ∧ 0 < orientI c a p) := by omega
+    have n2 : ¬ (orientI a b p < 0 ∧ orientI b c p < 0 ∧ orientI c a p < 0) := by omega
+    rw [if_neg n1, if_neg n2]
   · rw [triangle_ccw_inside a b c p hin.1 hin.2.1 hin.2.2, if_pos hin]
   · rw [triangle_ccw_outside a b c p hA hout]
     have n1 : ¬ (0 < orientI a b p ∧ 0 < orientI b c p ∧ 0 < orientI c a p) := by omega
@@ -82,7 +87,7 @@ def coverSum (p v0 : Pt) : List Pt → Int
   | a :: b :: rest => triCover p v0 a b + coverSum p v0 (b :: rest)
   | _ => 0
 
-/-- every fan triangle is non-degenerate and `p` is on the boundary of none -/
+/-- `p` is on the boundary of no non-degenerate fan triangle -/
 def FanGeneral (p v0 : Pt) : List Pt → Prop
   | a :: b :: rest => OffBoundary p v0 a b ∧ FanGeneral p v0 (b :: rest)
   | _ => True
